@@ -42,12 +42,14 @@ impl CheckDef for Comp {
     const NAME: &'static str = "comp";
     fn strategy(tier: Tier) -> BoxedStrategy<Case> {
         let max = tier.pick(120, 300);
-        prop::collection::vec(
-            prop_oneof![3 => rtt_ns().prop_map(Ev::Sample), 1 => Just(Ev::Timeout)],
-            1..max,
-        )
-        .prop_map(|evs| Case { evs })
-        .boxed()
+        // blocks: single events, or a steady path — a run of (nearly) equal samples, during which the variance term
+        // decays below the clock granularity (the floor of the variance term only matters there)
+        let single = prop_oneof![3 => rtt_ns().prop_map(Ev::Sample), 1 => Just(Ev::Timeout)].prop_map(|e| vec![e]);
+        let steady = (prop_oneof![2 => 150_000_000u64..2_000_000_000, 1 => 1_000_000u64..150_000_000, 1 => 2_000_000_000u64..70_000_000_000], 4usize..60, prop_oneof![Just(0u64), 1u64..200_000, 200_000u64..3_000_000])
+            .prop_flat_map(|(base, n, jitter)| prop::collection::vec(0..=jitter, n).prop_map(move |js| js.into_iter().map(|j| Ev::Sample(base + j)).collect::<Vec<_>>()));
+        prop::collection::vec(prop_oneof![12 => single, 1 => steady], 1..max)
+            .prop_map(|blocks| Case { evs: blocks.into_iter().flatten().take(400).collect() })
+            .boxed()
     }
 
     fn run(case: &Case, trace: bool) -> Outcome {
